@@ -177,6 +177,12 @@ class Ctx:
             cov["exhaustive"] = bool(self.exhaustive)
         for k, val in self.extra.items():
             cov[k] = val
+        try:
+            from . import runner as _runner
+            if _runner.ENV_STATS:
+                cov["process_environment"] = dict(_runner.ENV_STATS)
+        except Exception:
+            pass
         ev = {
             "property_id": self.pid,
             "tier": self.tier,
